@@ -300,7 +300,10 @@ class KittyImage(GraphicsImage):
 
             # The graphics query for support detection messes up iTerm2's window title
             if get_terminal_name_version()[0] == "iterm2":
-                return False  # definite; the name wasn't derived from a query if disabled
+                # Not definite if the name wasn't derived from a query
+                if not utils._queries_enabled:
+                    cls._supported = None
+                return False
 
             # Kitty graphics query + terminal attribute query
             # The second query is to speed up the query since most (if not all)
